@@ -233,9 +233,17 @@ def run_jwt_at(ctx):
         for i in range(n):
             claims = {"iss": ISS, "sub": "u", "aud": rng.choice([RS, [RS], [RS, "other"]]), "exp": NOW + rng.choice([0, 1, 60]),
                       "iat": NOW - rng.choice([0, 5]), "client_id": "c", "jti": "j%d" % i, "scope": rng.choice(["a b", "a", "", "a b c"])}
-            if rng.random() < 0.6:
-                claims.update(rng.choice([{"groups": ["g1", "g2"]}, {"roles": ["r1"]}, {"entitlements": ["e1"]}, {"groups": "g1 g2", "roles": "r1"},
-                                          {"groups": ["g1", "g2"], "roles": ["r1"], "entitlements": ["e1"]}]))
+            # groups / roles / entitlements draw from ONE shared vocabulary, so that a value required of
+            # one claim may sit under another claim
+            vocab = ["x", "y", "z"]
+            for cname in ("groups", "roles", "entitlements"):
+                r = rng.random()
+                if r < 0.45:
+                    claims[cname] = rng.sample(vocab, rng.choice([1, 2, 3]))
+                elif r < 0.55:
+                    claims[cname] = " ".join(rng.sample(vocab, rng.choice([1, 2])))
+                elif r < 0.6:
+                    claims[cname] = rng.choice([[], "", None])
             nm = rng.choice([0, 0, 0, 0, 0, 1, 1, 2])
             for _ in range(nm):
                 k = rng.choice(["iss", "sub", "aud", "exp", "iat", "nbf", "client_id", "jti", "auth_time", "amr", "acr", "scope"])
@@ -274,9 +282,9 @@ def run_jwt_at(ctx):
                 token = rng.choice(["garbage", "a.b", "a.b.c", token.split(".")[0] + ".e30." + token.split(".")[2], "!!!." + token.split(".", 1)[1]])
                 sig = "malformed" if token in ("garbage", "a.b", "a.b.c") or token.startswith("!!!") else "bad"
             req = {"scopes": rng.choice([None, None, "a", "a", "a b", ["a b", "c"], ["z"], ["c"]]),
-                   "groups": rng.choice([None] * 10 + ["g1", ["g1 g2"], ["g3"]]),
-                   "roles": rng.choice([None] * 10 + ["r1", ["r2"]]),
-                   "entitlements": rng.choice([None] * 10 + ["e1", ["e2"]])}
+                   "groups": rng.choice([None] * 6 + ["x", ["y"], ["x y"], ["z", "x y"]]),
+                   "roles": rng.choice([None] * 6 + ["y", ["x"], ["z"], ["y z"]]),
+                   "entitlements": rng.choice([None] * 6 + ["z", ["x"], ["y"], ["x z", "y"]])}
             kw = {k: norm(v) for k, v in req.items() if k != "scopes" and v is not None}
             got = run_impl(rp, "Bearer " + token, req["scopes"], **kw)
             if got[0] == "serve":
